@@ -176,13 +176,25 @@ def exceptEq (a b : Except Sighash.Err (Option Bytes)) : Bool :=
   | .ok none, .ok none => true
   | _, _ => false
 
-/-- are all the remembered preimages of the signed input what its signatures commit to at position `j` of the current state,
-the script code being `code`? -/
-def preimagesKept (c : Coin) (sg : Signed) (h : Hist) (j : Nat) (code : Bytes) : Bool :=
-  (List.zip sg.info.hts sg.pre).all (fun p => exceptEq (preimageOf c h.st sg.info.witness code j p.1) p.2)
+/-- does the closure raise something `is_solution_ok` does not catch (a field outside its wire range: `struct.error`)?
+`ScriptError` (a refused hash type) is a verdict, not an escape -/
+def isRaise : Except Sighash.Err (Option Bytes) → Bool
+  | .error .scriptError => false
+  | .error _ => true
+  | .ok _ => false
 
-/-- the verdict the hash types dictate for position `j` of the current state: `'1'`/`'0'`, or `'?'` when the verdict depends
-on the interpreter and not on a commitment (unlocking data edited; a spent script changed in a way no theorem speaks about) -/
+/-- what the commitments of the signed input say at position `j` of the current state, the script code being `code`:
+`'1'` every remembered preimage is what its signature commits to now; `'0'` one differs (or is refused); `'E'` every closure
+call raises past `is_solution_ok`; `'?'` some do and some do not (which one the interpreter asks first decides) -/
+def judge (c : Coin) (sg : Signed) (h : Hist) (j : Nat) (code : Bytes) : Char :=
+  let cur := sg.info.hts.map (preimageOf c h.st sg.info.witness code j)
+  if !cur.isEmpty && cur.all isRaise then 'E'
+  else if cur.any isRaise then '?'
+  else if (List.zip cur sg.pre).all (fun p => exceptEq p.1 p.2) then '1' else '0'
+
+/-- the verdict the hash types dictate for position `j` of the current state: `'1'`/`'0'`/`'E'` (the validation raises), or
+`'?'` when the verdict depends on the interpreter and not on a commitment (unlocking data edited; a spent script changed in a
+way no theorem speaks about) -/
 def dictated (c : Coin) (signed : List Signed) (h : Hist) (j : Nat) : Char :=
   match h.map[j]?.join, h.st.tx.ins[j]?, h.st.us[j]?.join with
   | some k, some tin, some uo =>
@@ -190,8 +202,7 @@ def dictated (c : Coin) (signed : List Signed) (h : Hist) (j : Nat) : Char :=
     | none => '0'
     | some sg =>
       if !(tin.script == sg.script && tin.witness == sg.wit) then '?'
-      else if uo.script == sg.spentScript then
-        if preimagesKept c sg h j sg.info.code then '1' else '0'
+      else if uo.script == sg.spentScript then judge c sg h j sg.info.code
       else
         let (kind, regions) := spkTemplate sg.spentScript
         let dataOnly := dataDiffOnly regions sg.spentScript uo.script
@@ -199,13 +210,18 @@ def dictated (c : Coin) (signed : List Signed) (h : Hist) (j : Nat) : Char :=
         else if !sg.info.witness && sg.info.code == sg.spentScript && (kind == .p2pkh || kind == .p2pk || kind == .multisig) &&
             (dataOnly || uo.script == sg.spentScript ++ [0x61] || uo.script == 0x61 :: sg.spentScript) then
           -- the spent script is the script code: the signatures commit to the new one
-          if preimagesKept c sg h j uo.script then '?' else '0'
+          match judge c sg h j uo.script with
+          | '1' => '?'
+          | 'E' => if dataOnly then '?' else 'E'    -- a changed key may not even parse: then the message is never asked for
+          | v => v
         else '?'
   | _, _, _ => '0'
 
 def verdicts (c : Coin) (signed : List Signed) (h : Hist) : String :=
   let vs := (List.range h.st.tx.ins.length).map (dictated c signed h)
-  let bad := if vs.contains '?' then "?" else if h.st.tx.isCoinbase then "0" else toString (vs.filter (· == '0')).length
+  -- `bad_solution_count()`: 0 for a coinbase without validating; raises as soon as one validation raises
+  let bad := if vs.contains 'E' then (if h.st.tx.isCoinbase then "0" else "E")
+    else if vs.contains '?' then "?" else if h.st.tx.isCoinbase then "0" else toString (vs.filter (· == '0')).length
   String.ofList vs ++ "/" ++ bad
 
 def guardsOf (s : State) : String :=
